@@ -80,6 +80,9 @@ CATALOGUE: Dict[str, Tuple[str, str]] = {
     "nested_ifs": ("none", "import sys\na = len(sys.argv)\nif a > 0:\n    if a > 1:\n        if a > 2:\n            print(3)\n        else:\n            print(2)\n    else:\n        print(1)\nelse:\n    print(0)"),
     "unused_things": ("none", "import os\nimport sys\ndef unused_function(x):\n    unused_local = x + 1\n    return x\nUNUSED_CONSTANT = 5\nclass Unused:\n    pass\nprint('x')"),
     "staticmethod_candidate": ("none", "class C:\n    def m(self, a):\n        return a + 1\n    def n(self):\n        return self.m(1)\nprint(C().n())"),
+    "for_over_int": ("none", "try:\n    for x in 5:\n        print(x)\nexcept TypeError:\n    print('not iterable')"),
+    "tail_then_dedent": ("none", "def tail(f):\n    if f:\n        print(1)\n        print(3)\n    else:\n        print(2)\n        print(3)\nprint(tail(1))"),
+    "format_errors_const": ("none", "try:\n    if '{} {}'.format('a'):\n        print(1)\nexcept IndexError:\n    print('index')"),
     "zerodiv_const": ("none", "if 1 / 0:\n    print(1)"),
     "illtyped_const": ("none", "while 'a' < 1:\n    print(1)\n    break"),
     "exit_in_condition": ("none", "if exit():\n    print(1)"),
